@@ -84,8 +84,8 @@ func init() {
 						if cl == nil || (cl.Name() != "RuneShouldBeEncoded" && cl.Name() != "ByteShouldBeEncoded") {
 							continue
 						}
-						if call.Common().Args[0] == ssa.Value(tr) && stripConv(call.Common().Args[1]) == raw {
-							return true
+						if supersetOf(call.Common().Args[0]) && stripConv(call.Common().Args[1]) == raw {
+							return true // excused by the set itself or by a superset: a fortiori not in the set
 						}
 					}
 					return false
@@ -173,6 +173,14 @@ func init() {
 						return
 					case *ssa.Slice:
 						if escapeBuffer(x.X) {
+							return
+						}
+					case *ssa.Lookup:
+						if _, isK := x.X.(*ssa.Const); isK {
+							return // a digit taken from a constant table (which table: TAB-hex)
+						}
+					case *ssa.Index:
+						if _, isK := x.X.(*ssa.Const); isK {
 							return
 						}
 					}
